@@ -6,7 +6,7 @@ cd /verif
 git -C /repo diff --quiet || { echo "/repo has local changes"; exit 2; }
 git -C /repo apply "/verif/seeded/$ID/patch.diff" || { echo "patch does not apply to /repo HEAD"; exit 2; }
 for P in "$@"; do
-  timeout 1500 bin/check "$P" --tier "${TIER:-quick}" > "/tmp/seed-$ID-$P.log" 2>&1; rc=$?
+  VERIF_EVID_DIR=/verif/evidence/_seed_runs timeout 1500 bin/check "$P" --tier "${TIER:-quick}" > "/tmp/seed-$ID-$P.log" 2>&1; rc=$?
   echo "seed $ID check $P -> exit $rc :: $(grep -c '^VIOLATION' /tmp/seed-$ID-$P.log) violation line(s); first: $(grep -A1 '^VIOLATION' /tmp/seed-$ID-$P.log | sed -n 2p | cut -c1-200)"
 done
 git -C /repo checkout -- .
